@@ -116,9 +116,13 @@ fn check_prepared(src_lines: &[(Key, [f64; 3])], prepared: &Factors, u1: bool, u
             }
         }
     }
-    // forced families exist
+    // forced families exist (the electricity ones only when the set has electricity at all)
+    let el_present = prepared.wdata.iter().any(|w| format!("{}", w.carrier) == "ELECTRICIDAD");
     for (c, s) in [("EAMBIENTE", "INSITU"), ("EAMBIENTE", "RED"), ("TERMOSOLAR", "INSITU"), ("TERMOSOLAR", "RED"), ("ELECTRICIDAD", "INSITU")] {
         let k = key(c, s, "SUMINISTRO", "A");
+        if c == "ELECTRICIDAD" && !el_present {
+            continue;
+        }
         match find(prepared, &k) {
             Some(g) if eq3(g, [1.0, 0.0, 0.0]) => {}
             g => out.viol("forced_factor_is_1_0_0", &[], cfg, format!("{k:?} = {g:?}"), "[1,0,0]"),
@@ -126,6 +130,9 @@ fn check_prepared(src_lines: &[(Key, [f64; 3])], prepared: &Factors, u1: bool, u
     }
     // (b) defaults of export factors
     for c in ["ELECTRICIDAD", "EAMBIENTE", "TERMOSOLAR"] {
+        if c == "ELECTRICIDAD" && !el_present {
+            continue;
+        }
         let grid = find(prepared, &key(c, "RED", "SUMINISTRO", "A"));
         for d in ["A_RED", "A_NEPB"] {
             for (st, default) in [("A", Some([1.0, 0.0, 0.0])), ("B", grid)] {
@@ -205,8 +212,11 @@ impl StateCheck for C07 {
                 None => cte::wfactors_from_str(text, user, cte::CTE_USERWF),
             };
             // user RED1/RED2 given => that carrier has a grid factor
-            let usable_u = has_grid("ELECTRICIDAD")
-                && carriers.iter().all(|c| c.as_str() == "EAMBIENTE" || c.as_str() == "TERMOSOLAR" || has_grid(c) || (c.as_str() == "RED1" && u1) || (c.as_str() == "RED2" && u2));
+            let others_ok = carriers.iter().all(|c| c.as_str() == "EAMBIENTE" || c.as_str() == "TERMOSOLAR" || has_grid(c) || (c.as_str() == "RED1" && u1) || (c.as_str() == "RED2" && u2));
+            // a set that does not mention electricity at all: the statement is silent, both outcomes are admitted
+            let el_absent = !carriers.iter().any(|c| c.as_str() == "ELECTRICIDAD");
+            let usable_u = others_ok;
+            let must_accept = others_ok && !el_absent;
             let _ = usable;
             out.compared += 1;
             match r {
@@ -221,7 +231,7 @@ impl StateCheck for C07 {
                 Err(e) => {
                     out.typed_errors += 1;
                     out.regime("rejected");
-                    if usable_u {
+                    if must_accept {
                         out.viol("usable_set_accepted", &[], &cfg, format!("Err: {e}"), "Ok: every carrier has its grid supply factor");
                     }
                 }
